@@ -769,11 +769,11 @@ def run(ctx):
                     if st["a"] == "fb" and rng.random() < 0.6:
                         st["pair"] = True
                 rs.append(sc)
-    # a slow rate consumer: the first change callback takes 700 ms while the target keeps changing - every change is announced
+    # a slow rate consumer: the first change callback takes 1.6 s while the target keeps changing - every change is announced
     for pc in ("rec", "noop"):
         for fbk in FBS:
-            sc = paced_script(rng, 3, pc, fbk, 5)
-            sc["cbhold"] = 700
+            sc = paced_script(rng, 3, pc, fbk, 8)
+            sc["cbhold"] = 1600
             rs.append(sc)
     # an RTP write that is still inside the transport (back pressure) while feedback keeps arriving: feeding feedback,
     # the getters and Close must not wait for it
